@@ -5,6 +5,7 @@ Runs the *executable definitions the theorems are about* (PyOak/Model/*).
 import PyOak.Handle.Traverse
 import PyOak.Handle.XPath
 import PyOak.Handle.Encode
+import PyOak.Handle.Registry
 open PyOak PyOak.Sexp
 
 def dispatch (s : Sexp) : Sexp :=
@@ -17,6 +18,7 @@ def dispatch (s : Sexp) : Sexp :=
       else if cmd == "cid-pre" then handleCidPre args
       else if cmd == "cid-eq" then handleCidEq args
       else if cmd == "node-eq" then handleNodeEq args
+      else if cmd == "registry-history" then handleRegistry args
       else none
     match r with
     | some x => x
